@@ -632,6 +632,40 @@ Module TaffyInstance.
   Qed.
 End TaffyInstance.
 
+(* Wave 7a: the transfer theorem of module RealCache INSTANTIATED for the complete engine under the real cache (Model/TaffyEngineReal.v
+   `trl_memo` = memo_real over real_algo: the instance `vh taffytree cases .. real` compares with TaffyTree::compute_layout_with_measure
+   WITHOUT the exact-key hook, layouts bit for bit and query / hit / measure counts exactly): an evaluation without lossy hit returns
+   what the exact-key engine `real_memo teq` (the one C01_taffy_engine_* are about) returns.  Premise left: `teq` is an exact
+   equality of numbers (C01_taffy_exact_keys: true of the representation equalities of binary32 and XQ); the premise "is_outer only
+   accepts outputs from_outer_size reproduces" of the general theorem is PROVED here (Proofs/TaffyEngineReal.v t_is_outer_spec).
+   `_partial` as the general theorem: outputs, not stored layouts. *)
+From TV Require Model.TaffyEngineReal Proofs.TaffyEngineReal.
+Module TaffyRealInstance.
+  Import Num.Num Model.Common Model.Leaf Model.FlexAlgBase Model.BlockFlexEngine Model.TaffyEngine Model.TaffyRoot.
+  Import TV.Model.EngineReal TV.Proofs.EngineReal TV.Model.TaffyEngineReal TV.Proofs.TaffyEngineReal.
+
+  Theorem C01_real_taffy_equals_exact_when_no_lossy_hit_partial :
+    forall (T : Type) (NT : Num T) (teq : T -> T -> bool),
+      (forall a b, teq a b = true -> a = b) ->
+      forall f (t : @trtree T) i o t' fe te oe te',
+        RValid (TStyle T) (FIn T) (LayoutOutput T) (FLay T) qi_mode t_is_none output_HIDDEN real_algo t ->
+        trl_memo teq f t i = Some (o, t') ->
+        sum_stats (TStyle T) (FLay T) (rcache (FIn T) (LayoutOutput T)) n_lossy t'
+        = sum_stats (TStyle T) (FLay T) (rcache (FIn T) (LayoutOutput T)) n_lossy t ->
+        Valid (TStyle T) (FIn T) (LayoutOutput T) (FLay T) qi_mode t_is_none output_HIDDEN real_algo te ->
+        skel (TStyle T) (FIn T) (LayoutOutput T) (FLay T) te = gskel (TStyle T) (FLay T) (rcache (FIn T) (LayoutOutput T)) t ->
+        real_memo teq fe te i = Some (oe, te') ->
+        o = oe /\ RValid (TStyle T) (FIn T) (LayoutOutput T) (FLay T) qi_mode t_is_none output_HIDDEN real_algo t'
+        /\ gskel (TStyle T) (FLay T) (rcache (FIn T) (LayoutOutput T)) t' = gskel (TStyle T) (FLay T) (rcache (FIn T) (LayoutOutput T)) t.
+  Proof.
+    intros T NT teq Hteq f t i o t' fe te oe te' HV Hm Hl HVe Hs He.
+    eapply (@memo_real_equals_exact T NT); [| |exact HV|exact Hm|exact Hl|exact HVe|exact Hs|exact He].
+    - apply TaffyKey.fin_eqb_with_eq. exact Hteq.
+    - apply t_is_outer_spec. exact Hteq.
+  Qed.
+  Print Assumptions C01_real_taffy_equals_exact_when_no_lossy_hit_partial.
+End TaffyRealInstance.
+
 Print Assumptions C01_memo_sound.
 Print Assumptions C01_root_output_equals_fresh.
 Print Assumptions C01_fresh_inv.
